@@ -35,3 +35,9 @@ pub trait ColumnLoader: Sync + Send + 'static {
 }
 
 pub type PartitionID = u64;
+
+#[cfg(feature = "verif")]
+pub mod verif_exports {
+    pub use super::file_writer::{BlobWriter, FileBlobWriter, VersionedChecksummedBlobWriter};
+    pub use super::partition_segment::PartitionSegment;
+}
